@@ -6,6 +6,7 @@ pub mod c16unit;
 pub mod c17;
 pub mod c19;
 pub mod c20;
+pub mod c20j;
 pub mod c20k;
 pub mod concprops;
 pub mod crashprops;
@@ -205,8 +206,17 @@ pub fn dispatch(id: &str, tier: Tier, seed: u64, replay: Option<&str>) -> i32 {
                 if text.contains("\"slow_device\"") {
                     return c20k::replay(path);
                 }
+                if text.contains("\"direct_io_default_allocator\"") {
+                    return c20j::replay(path);
+                }
             }
             c20::run(tier, seed, replay)
+        }
+        "C20J" => {
+            // the default-allocator stage of C20 alone (run by the uninstrumented binary)
+            let (code, summary) = c20j::campaign(tier, seed);
+            println!("C20J-SUMMARY {}", serde_json::to_string(&summary).unwrap_or_default());
+            code
         }
         "C20K" => {
             // the slow-device stage of C20 alone; prints its summary as one JSON line (used by the
